@@ -3,7 +3,7 @@
    Model: C06/Model.v (transcription of psutil/_pslinux.py, _psposix.get_terminal_map),
    specification: C06/Spec.v (kernel formats from proc(5) / fs/proc/array.c),
    generated table: Gen/C06_Tables.v (PROC_STATUSES of the tree under test). *)
-From PV Require Import C06.Spec C06.ProofsStat C06.ProofsThreads C06.ProofsStatus C06.ProofsTty C06.ProofsMisc.
+From PV Require Import C06.Spec C06.ProofsStat C06.ProofsThreads C06.ProofsStatus C06.ProofsTty C06.ProofsMisc C06.ProofsCodec.
 From Coq Require Import Permutation.
 
 (* /proc/<pid>/stat: for EVERY comm (any bytes, any length: spaces, parentheses,
@@ -54,6 +54,41 @@ Print Assumptions C06_example_record_lengths.
 Theorem C06_name_exact : forall r, wf_kstat r = true -> name (k_stat r) = Val (k_comm r).
 Proof. exact name_exact. Qed.
 Print Assumptions C06_name_exact.
+
+(* name() is a str: decode(comm) under the file-system encoding the interpreter started with
+   (utf-8, ascii in the C locale, latin-1) + surrogateescape = os.fsdecode(comm) ... *)
+Theorem C06_name_str_exact : forall e r,
+  wf_kstat r = true -> name_str e (k_stat r) = Val (fs_decode e (k_comm r)).
+Proof. exact name_str_exact. Qed.
+Print Assumptions C06_name_str_exact.
+
+(* ... os.fsencode(os.fsdecode(b)) = b for EVERY byte string and each of the three encodings ... *)
+Theorem C06_fs_roundtrip : forall e l, wf_bytes l = true -> fs_encode e (fs_decode e l) = Some l.
+Proof. exact fs_roundtrip. Qed.
+Print Assumptions C06_fs_roundtrip.
+
+(* ... so the returned str always encodes back to the bytes the kernel publishes, and different
+   names give different strs *)
+Theorem C06_name_str_roundtrip : forall e r,
+  wf_kstat r = true -> wf_bytes (k_comm r) = true ->
+  exists s, name_str e (k_stat r) = Val s /\ fs_encode e s = Some (k_comm r).
+Proof. exact name_str_roundtrip. Qed.
+Print Assumptions C06_name_str_roundtrip.
+
+Theorem C06_fs_decode_injective : forall e a b,
+  wf_bytes a = true -> wf_bytes b = true -> fs_decode e a = fs_decode e b -> a = b.
+Proof. exact fs_decode_injective. Qed.
+Print Assumptions C06_fs_decode_injective.
+
+(* the answer depends on the encoding: bytes >= 0x80 that form valid UTF-8 ("caf\xc3\xa9") are one
+   character under utf-8, two escaped bytes under ascii, two characters under latin-1 *)
+Theorem C06_example_fs_decode :
+  fs_decode Utf8 (bs "caf" ++ [195; 169]) = [99; 97; 102; 233]
+  /\ fs_decode Ascii (bs "caf" ++ [195; 169]) = [99; 97; 102; 56515; 56489]
+  /\ fs_decode Latin1 (bs "caf" ++ [195; 169]) = [99; 97; 102; 195; 169]
+  /\ fs_decode Utf8 (bs "a" ++ [226; 130] ++ bs ")" ++ [255; 237; 160; 128]) = [97; 56546; 56450; 41; 56575; 56557; 56480; 56448].
+Proof. exact fs_decode_cafe. Qed.
+Print Assumptions C06_example_fs_decode.
 
 Theorem C06_ppid_exact : forall r d,
   wf_kstat r = true -> fld 4 r = Some d -> is_dec d = true -> ppid (k_stat r) = Val (dec_val d).
